@@ -291,3 +291,311 @@ Proof.
   - intros b Hb. apply in_map_iff in Hb as [x [<- _]]. reflexivity.
   - intros [rn rq] [rn' rq'] Hr Hr'. apply in_combine_r in Hr, Hr'. cbn [snd]. rewrite (Hn' _ Hr), (Hn' _ Hr'). reflexivity.
 Qed.
+
+(* ---- frame 0 with gaps: the translated reference, gaps removed, is a prefix of the translation of the ungapped
+   reference ------------------------------------------------------------------------------------------------ *)
+From GA.Spec Require Import NCBI IupacSets.
+From GA.Proofs Require Import TranslateProofs.
+
+Definition F (l : list byte) : list byte := filter (fun b => negb (isgap b)) l.
+
+Lemma F_app a b : F (a ++ b) = F a ++ F b. Proof. unfold F. apply filter_app. Qed.
+
+Lemma F_firstn_S (ref : list byte) a :
+  F (firstn (S a) ref) = F (firstn a ref) ++ (if isgap (at_ ref a) then [] else [at_ ref a]).
+Proof.
+  revert a. induction ref as [|h t IH]; intros a.
+  - unfold at_. destruct a; reflexivity.
+  - destruct a as [|a].
+    + cbn [firstn]. unfold at_. cbn [nth]. unfold F. cbn [filter app]. destruct (isgap h); reflexivity.
+    + change (firstn (S (S a)) (h :: t)) with (h :: firstn (S a) t).
+      change (firstn (S a) (h :: t)) with (h :: firstn a t).
+      change (at_ (h :: t) (S a)) with (at_ t a).
+      change (F (h :: firstn (S a) t)) with (if negb (isgap h) then h :: F (firstn (S a) t) else F (firstn (S a) t)).
+      change (F (h :: firstn a t)) with (if negb (isgap h) then h :: F (firstn a t) else F (firstn a t)).
+      rewrite (IH a). destruct (negb (isgap h)); reflexivity.
+Qed.
+
+Lemma F_gap_run (ref : list byte) a : forall n,
+  (forall p, a <= p < a + n -> isgap (at_ ref p) = true) -> F (firstn (a + n) ref) = F (firstn a ref).
+Proof.
+  induction n as [|n IH]; intros H; [rewrite Nat.add_0_r; reflexivity|].
+  replace (a + S n) with (S (a + n)) by lia. rewrite F_firstn_S, (H (a + n)) by lia. rewrite app_nil_r.
+  apply IH. intros p Hp. apply H. lia.
+Qed.
+
+Lemma F_gap_to (ref : list byte) a b : a <= b ->
+  (forall p, a <= p < b -> isgap (at_ ref p) = true) -> F (firstn b ref) = F (firstn a ref).
+Proof. intros Hab H. replace b with (a + (b - a)) by lia. apply F_gap_run. intros p Hp. apply H. lia. Qed.
+
+Lemma translate_from_app3 code : forall p q, length p mod 3 = 0 ->
+  translate_from code (p ++ q) = translate_from code p ++ translate_from code q.
+Proof.
+  intros p. remember (length p) as n eqn:En. revert p En.
+  induction n as [n IH] using lt_wf_ind. intros p En q Hm.
+  destruct p as [|a [|b [|c t]]].
+  - reflexivity.
+  - cbn in En. subst n. cbn in Hm. discriminate.
+  - cbn in En. subst n. cbn in Hm. discriminate.
+  - cbn [app]. cbn [translate_from]. change (translate_from code (a :: b :: c :: t ++ q)) with (translate_codon code a b c :: translate_from code (t ++ q)).
+    cbn [app]. f_equal. apply (IH (length t)); [cbn in En; lia | reflexivity|].
+    cbn [length] in En. subst n. replace (S (S (S (length t)))) with (length t + 1 * 3) in Hm by lia.
+    rewrite Nat.mod_add in Hm by lia. exact Hm.
+Qed.
+
+(* the advance loops stop on a residue of the reference, or at the end of the alignment *)
+Lemma adv3_stop ref alen : forall fuel i0 i1 i2 j0 j1 j2,
+  adv3 fuel ref alen i0 i1 i2 = (j0, j1, j2) ->
+  (forall p, i0 <= p < j0 -> isgap (at_ ref p) = true) /\
+  (alen <= fuel + i2 -> j2 < alen -> isgap (at_ ref j0) = false).
+Proof.
+  induction fuel as [|f IH]; intros i0 i1 i2 j0 j1 j2 H; cbn [adv3] in H.
+  - injection H as <- <- <-. split; [intros p Hp; lia | intros H1 H2; lia].
+  - destruct (Nat.ltb_spec i2 alen) as [Hlt|Hge]; cbn [andb] in H.
+    + destruct (isgap (at_ ref i0)) eqn:Eg.
+      * destruct (IH _ _ _ _ _ _ H) as [G S]. split.
+        -- intros p Hp. destruct (Nat.eq_dec p i0) as [->|Hne]; [exact Eg | apply G; lia].
+        -- intros H1 H2. apply S; lia.
+      * injection H as <- <- <-. split; [intros p Hp; lia | intros _ _; exact Eg].
+    + injection H as <- <- <-. split; [intros p Hp; lia | intros _ H2; lia].
+Qed.
+
+Lemma adv2_stop ref alen : forall fuel i1 i2 k1 k2,
+  adv2 fuel ref alen i1 i2 = (k1, k2) ->
+  (forall p, i1 <= p < k1 -> isgap (at_ ref p) = true) /\
+  (alen <= fuel + i2 -> k2 < alen -> isgap (at_ ref k1) = false).
+Proof.
+  induction fuel as [|f IH]; intros i1 i2 k1 k2 H; cbn [adv2] in H.
+  - injection H as <- <-. split; [intros p Hp; lia | intros H1 H2; lia].
+  - destruct (Nat.ltb_spec i2 alen) as [Hlt|Hge]; cbn [andb] in H.
+    + destruct (isgap (at_ ref i1)) eqn:Eg.
+      * destruct (IH _ _ _ _ H) as [G S]. split.
+        -- intros p Hp. destruct (Nat.eq_dec p i1) as [->|Hne]; [exact Eg | apply G; lia].
+        -- intros H1 H2. apply S; lia.
+      * injection H as <- <-. split; [intros p Hp; lia | intros _ _; exact Eg].
+    + injection H as <- <-. split; [intros p Hp; lia | intros _ H2; lia].
+Qed.
+
+Lemma adv1_stop ref alen : forall fuel i2,
+  (forall p, i2 <= p < adv1 fuel ref alen i2 -> isgap (at_ ref p) = true) /\
+  (alen <= fuel + i2 -> adv1 fuel ref alen i2 < alen -> isgap (at_ ref (adv1 fuel ref alen i2)) = false).
+Proof.
+  induction fuel as [|f IH]; intros i2; cbn [adv1].
+  - split; [intros p Hp; lia | intros H1 H2; lia].
+  - destruct (Nat.ltb_spec i2 alen) as [Hlt|Hge]; cbn [andb].
+    + destruct (isgap (at_ ref i2)) eqn:Eg.
+      * destruct (IH (S i2)) as [G S']. split.
+        -- intros p Hp. destruct (Nat.eq_dec p i2) as [->|Hne]; [exact Eg | apply G; lia].
+        -- intros H1 H2. apply S'; [lia | exact H2].
+      * split; [intros p Hp; lia | intros _ _; exact Eg].
+    + split; [intros p Hp; lia | intros _ H2; lia].
+Qed.
+
+(* the buffer of the reference row *)
+Lemma append_pieces_ref code refid refpiece i0 i2 naa : forall seqs bufs k,
+  length bufs = length seqs -> k <= refid -> refid - k < length seqs ->
+  nth (refid - k) (append_pieces code k refid seqs bufs refpiece i0 i2 naa) [] = nth (refid - k) bufs [] ++ refpiece.
+Proof.
+  induction seqs as [|s ss IH]; intros bufs k Hl Hk Hr; [cbn in Hr; lia|].
+  destruct bufs as [|b bs]; [discriminate|]. cbn [append_pieces].
+  destruct (Nat.eq_dec k refid) as [->|Hne].
+  - rewrite Nat.sub_diag. cbn [nth]. rewrite Nat.eqb_refl. reflexivity.
+  - replace (refid - k) with (S (refid - S k)) by lia. cbn [nth]. apply IH; [cbn in Hl; lia | lia | cbn in Hr; lia].
+Qed.
+
+(* a codon holding a residue does not translate to a gap *)
+Definition spec_classes : list (option Z) := None :: map Some [0; 1; 2; 3; 4; 5; 6; 7; 8; 9; 10; 11; 12; 13; 14; 15]%Z.
+Definition optZ_eqb' (a b : option Z) : bool :=
+  match a, b with Some x, Some y => Z.eqb x y | None, None => true | _, _ => false end.
+
+Lemma nt_class_in b : existsb (optZ_eqb' (nt_class b)) spec_classes = true.
+Proof. revert b. apply forall_bytes. vm_compute. reflexivity. Qed.
+
+Lemma nt_class_nongap b : isgap b = false -> optZ_eqb' (nt_class b) (Some 0%Z) = false.
+Proof.
+  intros H. assert (G : (isgap b || negb (optZ_eqb' (nt_class b) (Some 0%Z))) = true).
+  { revert b H. intros b _. revert b. apply forall_bytes. vm_compute. reflexivity. }
+  rewrite H in G. cbn [orb] in G. destruct (optZ_eqb' (nt_class b) (Some 0%Z)); [discriminate | reflexivity].
+Qed.
+
+Definition cls_nogap_ok (gc : Z) : bool :=
+  forallb (fun c1 => forallb (fun c2 => forallb (fun c3 =>
+    optZ_eqb' c1 (Some 0%Z) || negb (beqb (spec_codon_cls gc c1 c2 c3) x2d)) spec_classes) spec_classes) spec_classes.
+
+Lemma cls_nogap_all : cls_nogap_ok 0 = true /\ cls_nogap_ok 1 = true /\ cls_nogap_ok 2 = true.
+Proof. repeat split; vm_compute; reflexivity. Qed.
+
+Lemma optZ_eqb'_eq a b : optZ_eqb' a b = true -> a = b.
+Proof. destruct a, b; cbn; intros H; try discriminate; [apply Z.eqb_eq in H; subst|]; reflexivity. Qed.
+
+Lemma codon_with_residue_not_gap gc code a b c :
+  genetic_code gc = Some code -> isgap a = false -> isgap (translate_codon code a b c) = false.
+Proof.
+  intros Hg Ha. rewrite (codon_theorem gc code Hg). unfold spec_codon.
+  assert (Hok : cls_nogap_ok gc = true).
+  { destruct cls_nogap_all as [S0 [S1 S2]]. unfold genetic_code in Hg.
+    destruct (Z.eqb_spec gc GENETIC_CODE_STANDARD) as [->|]; [exact S0|].
+    destruct (Z.eqb_spec gc GENETIC_CODE_VETEBRATE_MITO) as [->|]; [exact S1|].
+    destruct (Z.eqb_spec gc GENETIC_CODE_INVETEBRATE_MITO) as [->|]; [exact S2 | discriminate]. }
+  unfold cls_nogap_ok in Hok.
+  pose proof (nt_class_in a) as I1. pose proof (nt_class_in b) as I2. pose proof (nt_class_in c) as I3.
+  apply existsb_exists in I1 as [c1 [M1 E1]]. apply existsb_exists in I2 as [c2 [M2 E2]]. apply existsb_exists in I3 as [c3 [M3 E3]].
+  apply optZ_eqb'_eq in E1, E2, E3.
+  rewrite forallb_forall in Hok. specialize (Hok c1 M1). rewrite forallb_forall in Hok. specialize (Hok c2 M2).
+  rewrite forallb_forall in Hok. specialize (Hok c3 M3).
+  rewrite <- E1, <- E2, <- E3 in Hok. rewrite (nt_class_nongap a Ha) in Hok. cbn [orb] in Hok.
+  unfold isgap. destruct (beqb (spec_codon_cls gc (nt_class a) (nt_class b) (nt_class c)) x2d); [discriminate | reflexivity].
+Qed.
+
+Lemma ungap_app a b : ungap (a ++ b) = ungap a ++ ungap b. Proof. unfold ungap. apply filter_app. Qed.
+Lemma ungap_repeat n : ungap (repeatb x2d n) = [].
+Proof. unfold repeatb. induction n as [|n IH]; [reflexivity|]. cbn [repeat]. unfold ungap in *. cbn [filter]. exact IH. Qed.
+Lemma ungap_is_F l : ungap l = F l. Proof. reflexivity. Qed.
+
+Lemma append_pieces_length code refid refpiece i0 i2 naa : forall seqs bufs k,
+  length bufs = length seqs -> length (append_pieces code k refid seqs bufs refpiece i0 i2 naa) = length seqs.
+Proof.
+  induction seqs as [|s ss IH]; intros bufs k Hl; destruct bufs as [|b bs]; try discriminate; [reflexivity|].
+  cbn [append_pieces length]. f_equal. apply IH. cbn in Hl. lia.
+Qed.
+
+Definition ref_inv (code : code_table) (refid : nat) (ref : list byte) (bufs : list (list byte)) (i0 : nat) : Prop :=
+  ungap (nth refid bufs []) = translate_from code (F (firstn i0 ref)) /\ length (F (firstn i0 ref)) mod 3 = 0.
+
+Lemma byref_loop_ref_inv gc code refid alen seqs :
+  genetic_code gc = Some code -> refid < length seqs ->
+  forall fuel bufs i0,
+  length bufs = length seqs -> ref_inv code refid (nth refid seqs []) bufs i0 ->
+  exists i, ref_inv code refid (nth refid seqs []) (byref_loop fuel code refid alen seqs bufs i0 (i0 + 1) (i0 + 2)) i.
+Proof.
+  intros Hg Hrid. induction fuel as [|f IH]; intros bufs i0 Hl Hi; [exists i0; exact Hi|]. rewrite byref_loop_S.
+  destruct (negb (Nat.ltb (i0 + 2) alen)); [exists i0; exact Hi|]. cbv zeta.
+  set (ref := nth refid seqs []) in *.
+  destruct (isgap (at_ ref i0) && isgap (at_ ref (i0 + 1)) && isgap (at_ ref (i0 + 2))) eqn:Eall.
+  - cbv zeta. apply andb_prop in Eall as [Eall G2]. apply andb_prop in Eall as [G0 G1].
+    replace (i0 + 2 + 2) with (i0 + 2 + 1 + 1) by lia. replace (i0 + 2 + 3) with (i0 + 2 + 1 + 2) by lia.
+    apply IH.
+    + apply append_pieces_length. exact Hl.
+    + destruct Hi as [I1 I2]. unfold ref_inv.
+      pose proof (append_pieces_ref code refid (repeatb x2d ((i0 + 2 + 1 - i0) / 3)) i0 (i0 + 2) ((i0 + 2 + 1 - i0) / 3) seqs bufs 0 Hl
+                    ltac:(lia)) as R. rewrite Nat.sub_0_r in R. rewrite R by exact Hrid.
+      rewrite ungap_app, ungap_repeat, app_nil_r.
+      assert (E : F (firstn (i0 + 2 + 1) ref) = F (firstn i0 ref)).
+      { apply F_gap_to; [lia|]. intros p Hp.
+        assert (p = i0 \/ p = i0 + 1 \/ p = i0 + 2) as [->|[->| ->]] by lia; assumption. }
+      rewrite E. split; assumption.
+  - destruct (adv3 alen ref alen i0 (i0 + 1) (i0 + 2)) as [[j0 j1] j2] eqn:E3.
+    destruct (adv3_offsets ref alen _ _ _ _ _ _ _ E3) as [O1 [O2 [O3 _]]].
+    destruct (adv3_stop ref alen _ _ _ _ _ _ _ E3) as [S3a S3b].
+    destruct (Nat.ltb j2 alen) eqn:L3; cbn [negb]; [|exists i0; exact Hi].
+    destruct (adv2 alen ref alen j1 j2) as [k1 k2] eqn:E2.
+    destruct (adv2_mono ref alen _ _ _ _ _ E2) as [M1 M2].
+    destruct (adv2_stop ref alen _ _ _ _ _ E2) as [S2a S2b].
+    destruct (Nat.ltb k2 alen) eqn:L2; cbn [negb]; [|exists i0; exact Hi].
+    set (l2 := adv1 alen ref alen k2).
+    pose proof (adv1_mono ref alen alen k2) as M3. fold l2 in M3.
+    destruct (adv1_stop ref alen alen k2) as [S1a S1b]. fold l2 in S1a, S1b.
+    destruct (Nat.ltb l2 alen) eqn:L1; cbn [negb]; [|exists i0; exact Hi]. cbv zeta.
+    apply Nat.ltb_lt in L3, L2, L1.
+    assert (R0 : isgap (at_ ref j0) = false) by (apply S3b; lia).
+    assert (R1 : isgap (at_ ref k1) = false) by (apply S2b; lia).
+    assert (R2 : isgap (at_ ref l2) = false) by (apply S1b; lia).
+    replace (l2 + 2) with (l2 + 1 + 1) by lia. replace (l2 + 3) with (l2 + 1 + 2) by lia.
+    apply IH.
+    + apply append_pieces_length. exact Hl.
+    + destruct Hi as [I1 I2]. unfold ref_inv.
+      pose proof (append_pieces_ref code refid
+                    (translate_codon code (at_ ref j0) (at_ ref k1) (at_ ref l2) :: repeatb x2d ((l2 + 1 - j0) / 3 - 1))
+                    j0 l2 ((l2 + 1 - j0) / 3) seqs bufs 0 Hl ltac:(lia)) as R. rewrite Nat.sub_0_r in R. rewrite R by exact Hrid.
+      rewrite ungap_app.
+      change (ungap (translate_codon code (at_ ref j0) (at_ ref k1) (at_ ref l2) :: repeatb x2d ((l2 + 1 - j0) / 3 - 1)))
+        with (if negb (isgap (translate_codon code (at_ ref j0) (at_ ref k1) (at_ ref l2)))
+              then translate_codon code (at_ ref j0) (at_ ref k1) (at_ ref l2) :: ungap (repeatb x2d ((l2 + 1 - j0) / 3 - 1))
+              else ungap (repeatb x2d ((l2 + 1 - j0) / 3 - 1))).
+      rewrite (codon_with_residue_not_gap gc code _ _ _ Hg R0). cbn [negb]. rewrite ungap_repeat.
+      assert (E : F (firstn (l2 + 1) ref) = F (firstn i0 ref) ++ [at_ ref j0; at_ ref k1; at_ ref l2]).
+      { replace (l2 + 1) with (S l2) by lia. rewrite F_firstn_S, R2.
+        rewrite (F_gap_to ref (S k1) l2) by (try lia; intros p Hp; apply S1a; lia).
+        rewrite F_firstn_S, R1.
+        rewrite (F_gap_to ref (S j0) k1) by (try lia; intros p Hp; apply S2a; lia).
+        rewrite F_firstn_S, R0.
+        rewrite (F_gap_to ref i0 j0) by (try lia; intros p Hp; apply S3a; lia).
+        rewrite <- !app_assoc. reflexivity. }
+      rewrite E. split.
+      * rewrite translate_from_app3 by exact I2. rewrite I1. reflexivity.
+      * rewrite app_length. cbn [length]. replace (length (F (firstn i0 ref)) + 3) with (length (F (firstn i0 ref)) + 1 * 3) by lia.
+        rewrite Nat.mod_add by lia. exact I2.
+Qed.
+
+Lemma byref_loop_length code refid alen seqs : forall fuel bufs i0 i1 i2,
+  length bufs = length seqs -> length (byref_loop fuel code refid alen seqs bufs i0 i1 i2) = length seqs.
+Proof.
+  induction fuel as [|f IH]; intros bufs i0 i1 i2 Hl; [exact Hl|]. rewrite byref_loop_S.
+  destruct (negb (Nat.ltb i2 alen)); [exact Hl|]. cbv zeta.
+  destruct (isgap (at_ (nth refid seqs []) i0) && isgap (at_ (nth refid seqs []) i1) && isgap (at_ (nth refid seqs []) i2)).
+  - apply IH. apply append_pieces_length. exact Hl.
+  - destruct (adv3 alen (nth refid seqs []) alen i0 i1 i2) as [[j0 j1] j2].
+    destruct (negb (Nat.ltb j2 alen)); [exact Hl|].
+    destruct (adv2 alen (nth refid seqs []) alen j1 j2) as [k1 k2].
+    destruct (negb (Nat.ltb k2 alen)); [exact Hl|].
+    destruct (negb (Nat.ltb (adv1 alen (nth refid seqs []) alen k2) alen)); [exact Hl|].
+    apply IH. apply append_pieces_length. exact Hl.
+Qed.
+
+Lemma index_lassoc_in n : forall (rs : list row) k i, index_of_name n rs k = Some i ->
+  lassoc n rs = Some (nth (i - k) (map snd rs) []).
+Proof.
+  induction rs as [|[rn rq] t IH]; intros k i H; cbn [index_of_name] in H; [discriminate|].
+  cbn [lassoc map fst] in *. destruct (bytes_eqb rn n) eqn:E.
+  - injection H as <-. apply bytes_eqb_eq in E. subst rn. rewrite bytes_eqb_refl, Nat.sub_diag. reflexivity.
+  - assert (E' : bytes_eqb n rn = false).
+    { destruct (bytes_eqb n rn) eqn:E2; [|reflexivity]. apply bytes_eqb_eq in E2. subst rn. rewrite bytes_eqb_refl in E. discriminate. }
+    rewrite E'. pose proof (index_of_name_lt n t (S k) i H) as Hlt. rewrite (IH (S k) i H).
+    replace (i - k) with (S (i - S k)) by lia. reflexivity.
+Qed.
+
+Lemma index_lassoc_out n : forall (rs : list row) (bufs : list (list byte)) k i, index_of_name n rs k = Some i ->
+  length bufs = length rs -> lassoc n (combine (map fst rs) bufs) = Some (nth (i - k) bufs []).
+Proof.
+  induction rs as [|[rn rq] t IH]; intros bufs k i H Hl; cbn [index_of_name] in H; [discriminate|].
+  destruct bufs as [|b bs]; [discriminate|]. cbn [map fst combine lassoc] in *. destruct (bytes_eqb rn n) eqn:E.
+  - injection H as <-. apply bytes_eqb_eq in E. subst rn. rewrite bytes_eqb_refl, Nat.sub_diag. reflexivity.
+  - assert (E' : bytes_eqb n rn = false).
+    { destruct (bytes_eqb n rn) eqn:E2; [|reflexivity]. apply bytes_eqb_eq in E2. subst rn. rewrite bytes_eqb_refl in E. discriminate. }
+    rewrite E'. pose proof (index_of_name_lt n t (S k) i H) as Hlt. rewrite (IH bs (S k) i H) by (cbn in Hl; lia).
+    replace (i - k) with (S (i - S k)) by lia. reflexivity.
+Qed.
+
+Definition is_prefix (a b : list byte) : Prop := exists t, b = a ++ t.
+
+(* frame 0, gaps anywhere: the translated reference with its gaps removed is a prefix of the translation of the
+   reference with its gaps removed (the codons of the reference are read across its gaps) *)
+Theorem byref_frame0_prefix gc code refname (rs : list row) out refrow refout :
+  genetic_code gc = Some code ->
+  translate_by_reference NUCLEOTIDS gc 0 refname rs = Some out ->
+  lassoc refname rs = Some refrow -> lassoc refname out = Some refout ->
+  is_prefix (ungap refout) (translate_from code (ungap refrow)).
+Proof.
+  intros Hg H Hin Hout. unfold translate_by_reference in H.
+  destruct refname as [|c0 cn]; [discriminate|].
+  destruct (index_of_name (c0 :: cn) rs 0) as [refid|] eqn:Ei; [|discriminate].
+  cbn [negb andb Z.eqb NUCLEOTIDS] in H. rewrite Hg in H. cbv zeta in H. injection H as <-.
+  set (alen := length (snd (hd ([], []) rs))) in *.
+  set (bufs := byref_loop (S alen) code refid alen (map snd rs) (map (fun _ => []) rs) 0 (0 + 1) (0 + 2)) in *.
+  assert (Hlen : length bufs = length rs).
+  { unfold bufs. rewrite byref_loop_length; rewrite !map_length; reflexivity. }
+  rewrite (index_lassoc_in _ _ _ _ Ei) in Hin. injection Hin as <-.
+  change (byref_loop (S alen) code refid alen (map snd rs) (map (fun _ => []) rs) 0 1 2) with bufs in Hout.
+  rewrite (index_lassoc_out _ _ bufs _ _ Ei Hlen) in Hout. injection Hout as <-. rewrite Nat.sub_0_r.
+  pose proof (index_of_name_lt _ _ _ _ Ei) as Hlt.
+  destruct (byref_loop_ref_inv gc code refid alen (map snd rs) Hg ltac:(rewrite map_length; lia) (S alen)
+              (map (fun _ => []) rs) 0) as [i [I1 I2]].
+  - rewrite !map_length. reflexivity.
+  - split; [|reflexivity]. cbn [firstn]. 
+    assert (E : nth refid (map (fun _ : row => @nil byte) rs) [] = []).
+    { clear. revert refid. induction rs as [|r t IH]; intros [|k]; cbn; auto. }
+    rewrite E. reflexivity.
+  - fold bufs in I1. rewrite I1. set (ref := nth refid (map snd rs) []) in *.
+    exists (translate_from code (F (skipn i ref))).
+    rewrite <- translate_from_app3 by exact I2. rewrite <- F_app, firstn_skipn. reflexivity.
+Qed.
